@@ -202,8 +202,9 @@ def run(ctx):
             if fn.endswith(".json"):
                 corpus.append(json.load(open(os.path.join(cdir, fn))))
     for c in corpus:
-        cases.append((bytes(c["stream"]), c.get("rootmode", "any"), "corpus:" + c["name"]))
-    n = ctx.n(260, 6000)
+        if not c.get("real"):
+            cases.append((bytes(c["stream"]), c.get("rootmode", "any"), "corpus:" + c["name"]))
+    n = ctx.n(200, 6000)
     for i in range(n):
         s = g.stream()
         kind = "wellformed"
@@ -242,6 +243,9 @@ def run(ctx):
                              % (ref, cs[:30], final, list(s), mode), replay=dict(stream=list(s), chunks=cs, rootmode=mode, whole=ref, chunked=final))
                     break
                 model_cases.append((s, cs, mode, ev, snaps))
+        corpus_witnesses(ctx, I, corpus)
+        close_in_index_phase(ctx, I)
+        abort_in_index_phase(ctx, I)
         real_oracle(ctx, I)
         resync_refs(ctx, I)
         resync_vocab(ctx, I)
@@ -251,18 +255,107 @@ def run(ctx):
         absorbing_closer_note(ctx, I)
         if generic_ok:
             from harness import c07_std
-            c07_std.std_correspondence(ctx, I, ctx.n(110, 2500))
+            c07_std.std_correspondence(ctx, I, ctx.n(70, 2500))
     ctx.sample(dict(stream=list(cases[len(corpus)][0]), rootmode=cases[len(corpus)][1], kind=cases[len(corpus)][2]))
     ctx.sample(dict(stream=list(cases[-1][0]), rootmode=cases[-1][1], kind=cases[-1][2]))
 
     # ---- correspondence with the Coq model, event by event and snapshot by snapshot
+    # quick tier: the recorded traces are shared out between the two models of the same code (every trace is compared with one of
+    # them); thorough: all of them with the transcription, every third also with the generic logic
+    quick = ctx.tier == "quick"
     if model_ok:
-        correspond(ctx, model_cases)
+        correspond(ctx, model_cases[0::2] if quick and generic_ok else model_cases)
     if generic_ok:
-        correspond_generic(ctx, model_cases[::3] if ctx.tier != "quick" else model_cases[::2])
+        correspond_generic(ctx, model_cases[1::2] if quick else model_cases[::3])
     if not ok and len(ctx.failures) == before:
         ctx.fail("proof-broken", "theorem closure props/C07.vo no longer builds: " + log[-2500:], replay=dict(log=log[-6000:]),
                  has_input=False)
+
+
+def _count_deliveries(ev):
+    return len([e for e in ev if e[0] == "deliver"])
+
+
+def corpus_witnesses(ctx, I, corpus):
+    """regression witnesses with a stated expectation (corpus/C07/*.json: expect_dead, max_deliveries)"""
+    for c in corpus:
+        if "expect_dead" not in c:
+            continue
+        s = bytes(c["stream"])
+        for cs in ([len(s)], [1] * len(s)):
+            if c.get("real"):
+                ev, final, esc = I.run_real(s, cs)
+                dead = final["dead"]
+            else:
+                ev, snaps, esc = I.run_policy(s, cs, c.get("rootmode", "any"))
+                dead = bool(snaps and snaps[-1]["dead"])
+            ctx.case(["corpus-witness", c["name"], cs], nontrivial=True)
+            nviol = len([e for e in ev if e[0] == "violation"])
+            if esc or dead != c["expect_dead"] or _count_deliveries(ev) > c["max_deliveries"] or ("expect_violations" in c and nviol != c["expect_violations"]):
+                ctx.fail("oracle/close-in-index-phase-accepted" if c["name"].startswith("close_in_index_phase") else
+                         "oracle/abort-in-index-phase-delivers" if c["name"].startswith("abort_in_index_phase") else "oracle/corpus-witness/" + c["name"],
+                         "regression witness %s (%s): expected abandoned=%s, at most %d deliveries, %s violation(s); got abandoned=%s, events %r, escaped %r"
+                         % (c["name"], c.get("what", ""), c["expect_dead"], c["max_deliveries"], c.get("expect_violations", "any number of"), dead, ev[:8], esc),
+                         replay=dict(stream=list(s), chunks=cs, rootmode=c.get("rootmode", "any"), real=bool(c.get("real"))))
+                break
+
+
+def close_in_index_phase(ctx, I):
+    """a CLOSE token that arrives while the index phase of an OPEN is pending cannot belong to that OPEN: it is a protocol error
+    (ERROR sent, connection closed, nothing decoded afterwards) at every nesting depth, for every enclosing CLOSE count, with
+    policy and standard unslicers.  Before the repair the enclosing sequence was closed and the index phase continued one level up,
+    so a balanced stream delivered two objects."""
+    for real, L in ((True, b"list"), (False, b"L")):
+        for depth in (0, 1, 2, 3):
+            for which in range(depth + 1):            # which enclosing OPEN the stray CLOSE names (depth = the pending one itself)
+                pre = b"".join(tok(OPEN, i) + S(L) + enc_int(i) for i in range(depth))
+                s = pre + tok(OPEN, depth) + tok(CLOSE, which) + S(L) + enc_int(5) + tok(CLOSE, depth) + b"".join(tok(CLOSE, i) for i in reversed(range(depth))) + enc_int(9)
+                for cs in ([len(s)], [1] * len(s)):
+                    if real:
+                        ev, final, esc = I.run_real(s, cs)
+                        dead = final["dead"]
+                    else:
+                        ev, snaps, esc = I.run_policy(s, cs, "any")
+                        dead = bool(snaps and snaps[-1]["dead"])
+                    ctx.case(["close-in-index", real, depth, which, cs], nontrivial=True)
+                    ctx.hist("kind", "close-in-index-phase")
+                    if esc or not dead or _count_deliveries(ev) > 0 or not any(e[0] == "error-sent" for e in ev):
+                        ctx.fail("oracle/close-in-index-phase-accepted", "a CLOSE(%d) in the index phase of OPEN(%d) (%s unslicers, %d enclosing lists) was not treated "
+                                 "as a protocol error: abandoned=%s, deliveries=%d, events %r, escaped %r" % (which, depth, "standard" if real else "policy", depth, dead,
+                                 _count_deliveries(ev), ev[:8], esc), replay=dict(stream=list(s), chunks=cs, rootmode="any", real=real))
+                        break
+
+
+def abort_in_index_phase(ctx, I):
+    """an ABORT that arrives while the index tokens of an OPEN are pending abandons THAT sequence: one violation is reported, everything
+    up to the CLOSE that balances the outermost enclosing OPEN is discarded, nothing of it is delivered, and the next object is decoded
+    normally.  Before the repair the index phase stayed pending: the sequence was reported AND then built and delivered."""
+    for real, L in ((True, b"list"), (False, b"L")):
+        for depth in (0, 1, 2, 3):
+            for extra_index in (False, True):          # ABORT right after OPEN / after a first index token of a two-token opentype (policy "2")
+                if extra_index and real:
+                    continue
+                pre = b"".join(tok(OPEN, i) + S(L) + enc_int(i) for i in range(depth))
+                s = pre + tok(OPEN, depth) + (S(b"2") if extra_index else b"") + tok(ABORT, depth) + S(L) + enc_int(5) + tok(CLOSE, depth) \
+                    + b"".join(tok(CLOSE, i) for i in reversed(range(depth))) + enc_int(9)
+                for cs in ([len(s)], [1] * len(s)):
+                    if real:
+                        ev, final, esc = I.run_real(s, cs)
+                        dead = final["dead"]
+                        want = [["violation"], ["deliver", ["i", 9]]]
+                    else:
+                        ev, snaps, esc = I.run_policy(s, cs, "any")
+                        dead = bool(snaps and snaps[-1]["dead"])
+                        want = [["violation"], ["deliver", ["i", 9]]]
+                    got = [list(e) for e in ev if e[0] in ("deliver", "violation", "error-sent", "lose")]
+                    ctx.case(["abort-in-index", real, depth, extra_index, cs], nontrivial=True)
+                    ctx.hist("kind", "abort-in-index-phase")
+                    if esc or dead or got != want:
+                        ctx.fail("oracle/abort-in-index-phase-delivers", "an ABORT(%d) in the index phase of OPEN(%d) (%s unslicers, %d enclosing lists%s) must abandon "
+                                 "exactly that top-level sequence: expected %r, got %r, abandoned=%s, escaped %r"
+                                 % (depth, depth, "standard" if real else "policy", depth, ", after a first index token" if extra_index else "", want, got, dead, esc),
+                                 replay=dict(stream=list(s), chunks=cs, rootmode="any", real=real))
+                        break
 
 
 def correspond(ctx, model_cases):
